@@ -1170,6 +1170,25 @@ def translation_step(ctx):
                        "generated_definitions": defs[:6000]}, found_input=False)
 
 
+def small_table_step(ctx):
+    """C17_small_rules_exact is stated for the start values of SmallRules.cos_table: re-measure libm's cos at the
+    model's arguments for n = 1..20 and compare bit for bit with the table (inside Coq)."""
+    t = "[" + "; ".join("(%s, %s)" % (cz(n), ccos(n)) for n in range(1, 21)) + "]"
+    try:
+        vals = core.coq_eval(os.path.join(ctx.work, "smalltab"),
+                             PRE + "From EsVerif.C17 Require Import SmallRules.\n", ["v_small_table cos_table %s" % t], tag="smalltab")
+        ok = vals == ["0"]
+        detail = "" if ok else "verdict %r" % (vals,)
+    except core.CoqEvalError as e:
+        ok, detail = False, str(e)[-400:]
+    ctx.obligation("libm cos at the model's start-value arguments equals SmallRules.cos_table (n = 1..20): "
+                   "C17_small_rules_exact applies to this machine", ok, detail)
+    if not ok:
+        ctx.violation("libm's cos differs from the start values C17_small_rules_exact is stated for (%s)" % detail,
+                      {"kind": "contract", "no_longer_checks": "C17_small_rules_exact (SmallRules.cos_table)", "detail": detail},
+                      found_input=False)
+
+
 def run(ctx, replay=None):
     ctx.rule = ("corpus (repaired defects) + adversarial families of the quantifier (n = 1..40 quick / 1..200 thorough and samples to 2000; "
                 "negative, tiny, huge, reversed intervals; rejected point counts; random polynomials of degree <= 2n-1 for n <= 30; "
@@ -1181,6 +1200,8 @@ def run(ctx, replay=None):
     ctx.trusted = TRUSTED
     core.proof_step(ctx, "C17", core.ALLOW_DISCRETE + core.ALLOW_REALS + core.ALLOW_INTERVAL + core.ALLOW_FLOAT)
     translation_step(ctx)
+    if replay is None:
+        small_table_step(ctx)
     differential_sharded(ctx, PRE, ENTRIES, replay)
     for ent in ENTRIES:
         k = sum(v for key, v in ctx.dist.items() if key.startswith("verdict:%s:" % ent.name))
